@@ -52,12 +52,15 @@ def cases(tier, seed):
         vs = progs.p_shapes(v, progs.QUICK_P) + progs.pc_shapes(v, progs.QUICK_PC)
         for a in vs:
             specs.append({"id": "in:%s" % al.expr_id(a), "A": a, "Bs": vs})
+    warm = [["WL", "P.%s#int" % n] for n in al.P_ORDER]
+    for a in warm:
+        specs.append({"id": "in:%s" % al.expr_id(a), "A": a, "Bs": warm + progs.p_shapes(names=["big", "inner", "far", "sqA"])})
     tt = progs.pairs_tt(tier, seed, k=8)
     for n in range(0, len(tt), 40):
         chunk = tt[n : n + 40]
         specs.append({"id": "tt:%s,%s..%d" % (chunk[0][0][1], chunk[0][1][1], len(chunk)), "pairs": [list(p) for p in chunk]})
     # curves against shapes
-    curve_srcs = progs.p_shapes(both=False) + [["V", t[1]] for t in TOUCH]
+    curve_srcs = progs.p_shapes(both=False) + [["V", t[1]] for t in TOUCH] + [["WL", "P.%s#int" % n] for n in ("sqA", "triA", "inner", "far")]
     extra = []
     for t in TOUCH:
         for e in (["V", t[2]], ["~", ["V", t[2]]]):
